@@ -5499,6 +5499,16 @@ class Entity(object, metaclass=EntityMeta):
         assert obj._save_pos_ is not None, 'save_pos is None for %s object' % obj._status_
         assert not cache.saved_objects
         with cache.flush_disabled():
+            # new objects which obj refers to are saved before obj: their before_insert hooks should be called too
+            principals = []
+            def collect(obj2):
+                for attr in obj2._attrs_with_columns_:
+                    val = obj2._vals_.get(attr) if attr.reverse else None
+                    if val is not None and val._status_ == 'created' and val is not obj and val not in principals:
+                        principals.append(val)
+                        collect(val)
+            collect(obj)
+            for obj2 in reversed(principals): obj2._before_save_()
             obj._before_save_() # should be inside flush_disabled to prevent infinite recursion
                                 # TODO: add to documentation that flush is disabled inside before_xxx hooks
             obj._save_()
